@@ -10,7 +10,7 @@ POOL = {
     "brace_style": ["AlwaysNextLine", "PreferSameLine", "SameLineWhere"],
     "control_brace_style": ["AlwaysSameLine", "ClosingNextLine", "AlwaysNextLine"],
     "fn_params_layout": ["Compressed", "Tall", "Vertical"],
-    "use_small_heuristics": ["Default", "Max"],
+    "use_small_heuristics": ["Default", "Max", "Off"],
     "fn_call_width": [20, 40, 60, 90, 110],
     "attr_fn_like_width": [30, 70, 100],
     "struct_lit_width": [0, 18, 40, 90],
